@@ -8,7 +8,7 @@
       Deb822._skip_useless_lines (generator)        -> the two [skip] tests of [consume]
       Deb822.split_gpg_and_payload                  -> [gpg_step] (loop body) + [consume] + [split_gpg_and_payload]
       Deb822._internal_parser                       -> [fields_loop] / [deb822_init]
-      _gpg_multivalued.__init__ (Dsc, Changes)      -> [gpgmv_init]
+      _gpg_multivalued.__init__ (Dsc, Changes)      -> [gpgmv_split] / [gpgmv_init]
       Deb822.validate_input / __setitem__           -> [validate_input] / [setitem]
       Deb822Dict.__setitem__ (+ OrderedSet.add)     -> [dict_set] on an association list
       Deb822._dump_format / dump()                  -> [dump_entry] / [dump]
@@ -320,12 +320,35 @@ Definition deb822_init (ws_sep : bool) (ls : list str) : result dict * list str 
   end.
 
 (** Dsc(iterator) / Changes(iterator): _gpg_multivalued.__init__ first runs
-    split_gpg_and_payload on the RAW iterator (comments not filtered) and then
-    hands the payload list to Deb822.__init__.  Field names of the
-    _multivalued_fields tables are outside this model (they are C12's). *)
+    split_gpg_and_payload on the RAW iterator (comments not filtered), in a loop
+    on the one shared iterator, until the block has gpg_pre_lines or a payload
+    line that neither starts with '#' nor is whitespace-only (a block of comment
+    and whitespace-only lines is not a paragraph); EOFError ends the loop with
+    lines = [].  Every repeated round
+    has consumed at least one line, so [S (length ls)] rounds suffice (Proofs:
+    [gpgmv_split_fuel]).  It then hands the payload list to Deb822.__init__.
+    Field names of the _multivalued_fields tables are outside this model (they
+    are C12's). *)
+(** ln.startswith(b'#') or not ln.strip() *)
+Definition ignorable_line (l : str) : bool := startswith [HASH] l || blank_ws l.
+
+Fixpoint gpgmv_split (fuel : nat) (ws_sep : bool) (ls : list str) : result (list str) * list str :=
+  match fuel with
+  | O => (Err OutOfFuel, ls)
+  | S f =>
+    let (g, rest) := consume false ws_sep true gpg_init ls in
+    match g_lines g with
+    | [] => (Ok [], rest)                                  (* EOFError: empty input *)
+    | lines =>
+      if is_nil (g_pre g) && forallb ignorable_line lines
+      then gpgmv_split f ws_sep rest                       (* nothing but comments: next block *)
+      else (Ok lines, rest)
+    end
+  end.
+
 Definition gpgmv_init (ws_sep : bool) (ls : list str) : result dict * list str :=
-  let (g, rest) := consume false ws_sep true gpg_init ls in
-  (fst (deb822_init ws_sep (g_lines g)), rest).
+  let (r, rest) := gpgmv_split (S (length ls)) ws_sep ls in
+  (do lines <- r; fst (deb822_init ws_sep lines), rest).
 
 Inductive cls := CDeb822 | CGpgMv.      (* Deb822 itself | Dsc, Changes *)
 
